@@ -433,6 +433,14 @@ def _le_len_of(body, o, slice_rp, depth=3):
             if end is not None and _le_len_of(body, end, slice_rp, depth - 1):
                 continue
             return False
+        if k == "place" and x["p"] and x["p"][0].startswith(".0") and len(x["p"]) == 1:
+            # the value half of a checked subtraction: len - something <= len
+            ds = [d for d in body.defs().get(x["l"], []) if not d[2]["d"]["p"]]
+            if len(ds) == 1 and ds[0][1] != "T" and ds[0][2]["rv"]["r"] == "bin" and ds[0][2]["rv"]["op"].startswith("Sub") and _le_len_of(body, ds[0][2]["rv"]["a"], slice_rp, depth - 1):
+                continue
+            return False
+        if k == "bin" and x["op"].startswith("Sub") and _le_len_of(body, x["a"], slice_rp, depth - 1):
+            continue
         if k != "call":
             return False
         n = x["f"].get("res") or x["f"].get("path") or ""
@@ -490,6 +498,35 @@ def _prefix_range(body, t):
     return (rp, end) if _le_len_of(body, end, rp) else None
 
 
+def _const_range_within_known_len(body, an, st, t):
+    """x[a..b] / x[..b] / x[a..] with constant bounds, where the interval state at the site knows a lower bound of x.len()
+    (from an `x.len() == 12` / `>= n` test on this path) that covers the bounds"""
+    if len(t["a"]) < 2 or not t.get("aty") or not re.match(r"^&(mut )?\[", t["aty"][0]):
+        return False
+    rp = root_place(body, t["a"][0])
+    if not _stable_root(body, rp):
+        return False
+    org = origins(body, t["a"][1])
+    rng = [x for k, x in org if k == "agg" and x.get("adt") in ("std::ops::Range", "std::ops::RangeTo", "std::ops::RangeFrom", "std::ops::RangeInclusive", "std::ops::RangeToInclusive")]
+    if len(rng) != 1 or len(org) != 1:
+        return False
+    x = rng[0]
+    bounds = [op_int(o) for o in x["ops"]]
+    if any(v is None for v in bounds) or not bounds:
+        return False
+    need = max(bounds) + (1 if "Inclusive" in x["adt"] else 0)
+    if x["adt"] == "std::ops::Range" and bounds[0] > bounds[1]:
+        return False
+    lo = None
+    for _, c in body.calls():
+        n = c["f"].get("res") or c["f"].get("path") or ""
+        if re.search(r"<impl \[T\]>::len$", n) and c["a"] and root_place(body, c["a"][0]) == rp and not c["d"]["p"]:
+            v = an.read(st, {"l": c["d"]["l"], "p": []})
+            if isinstance(v, Iv) and v.lo is not None:
+                lo = v.lo if lo is None else max(lo, v.lo)
+    return lo is not None and lo >= need
+
+
 def discharge(F, body, sites, an=None):
     """mark sites that the interval analysis proves cannot fire"""
     if not sites:
@@ -538,9 +575,18 @@ def discharge(F, body, sites, an=None):
             s.discharged = True
             s.why = "indexing with the full range `..` cannot fail"
             continue
+        elif s.kind == "index" and _const_range_within_known_len(body, an, st, t):
+            s.discharged = True
+            s.why = "constant range within the slice's length, which an earlier len() test fixed on this path"
+            continue
         elif s.kind == "index" and _prefix_range(body, t) is not None:
             s.discharged = True
             s.why = "prefix range whose end is min(.., len of the very slice indexed)"
+            continue
+        elif s.kind == "length-arg" and re.search(r"<impl \[T\]>::(split_at|split_at_mut)$", t["f"].get("res") or t["f"].get("path") or "") and len(t["a"]) == 2 and \
+                _stable_root(body, root_place(body, t["a"][0])) and _le_len_of(body, t["a"][1], root_place(body, t["a"][0])):
+            s.discharged = True
+            s.why = "split point is structurally <= len of the very slice split (len - .. / min(len, ..))"
             continue
         elif s.kind == "length-arg" and re.search(r"<impl \[T\]>::copy_from_slice$", t["f"].get("res") or t["f"].get("path") or "") and len(t["a"]) == 2:
             # dst[..n].copy_from_slice(&src[..n]) with both prefixes proven in range: equal lengths
